@@ -161,6 +161,30 @@ def regen_models(pid):
     return info, None
 
 
+def go2coq_selftest(pid):
+    """translator + GoSem.v against the real Go compiler (bin/go2coq-selftest): the source text of the spec's
+       functions runs on boundary-biased inputs, the generated Gallina functions are evaluated by coqc on the same
+       inputs. Returns (summary dict, problem text or None). Gen/<pid>Gen.vo must be up to date."""
+    spec = os.path.join(VERIF, "lib", "go2coq.d", pid + ".json")
+    d = os.path.join(BUILD, "go2coq-selftest", pid)
+    t0 = time.time()
+    shutil.rmtree(d, ignore_errors=True)
+    rc, out = sh([os.path.join(BUILD, "go2coq"), "-repo", REPO, "-verif", VERIF, "-spec", spec, "-selftest", d], env=GOENV, timeout=600)
+    if rc != 0:
+        return {"error": out[-300:]}, "translator self-test: cannot emit the test program: " + out[-300:]
+    rc, out = sh("timeout 600 go build -o selftest . && ./selftest > selftest.v", cwd=d, env=GOENV)
+    if rc != 0:
+        return {"error": out[-300:]}, "translator self-test: the test program does not build/run: " + out[-300:]
+    txt = open(os.path.join(d, "selftest.v")).read()
+    ncases = sum(int(n) for n in re.findall(r"^\(\* \w+: (\d+) cases \*\)", txt, re.M))
+    with Lock("coq"):
+        rc, out = sh(["timeout", "1200", "coqc", "-Q", COQ, "SV", "selftest.v"], cwd=d)
+    res = {"functions": len(re.findall(r"^Goal ", txt, re.M)), "cases": ncases, "agree": rc == 0, "wall_s": round(time.time() - t0, 2)}
+    if rc != 0:
+        return res, "translator self-test: a generated function disagrees with the Go function it was generated from: " + out.strip()[-400:]
+    return res, None
+
+
 def regen_all_models():
     """bin/setup: regenerate every generated model before the Coq build"""
     ok = True
@@ -539,6 +563,11 @@ def main(argv):
         bad_chk = [a for a in chk_axioms if a.split(".")[-1] not in {x.split(".")[-1] for x in ALLOWED_AXIOMS}]
         if bad_chk:
             problems.append("coqchk: axioms outside the standard library: " + ", ".join(bad_chk))
+    if gen_info and not gen_problem and coq_ok and (tier == "thorough" or os.environ.get("VERIF_GO2COQ_SELFTEST") == "1"):
+        st_res, st_problem = go2coq_selftest(pid)
+        gen_info["selftest"] = st_res
+        if st_problem:
+            problems.append(st_problem)
     forb = forbidden_scan()
     if forb:
         problems.append("coq: forbidden vernacular: " + "; ".join(forb[:5]))
